@@ -6,7 +6,7 @@
 
 namespace AIToolbox::Factored {
     template <typename Factor>
-    auto buildAdjacencyList(const Action & A, const FactorGraph<Factor> & graph);
+    auto buildAdjacencyList(const FactorGraph<Factor> & graph);
 
     /**
      * @brief This function solves the APSP problem for the provided graph.
